@@ -70,9 +70,10 @@ fn run_one(v: &Value, out: &mut Vec<String>) {
             continue;
         }
         let arg = a.get(1).and_then(|x| x.as_u64()).unwrap_or(0);
+        let sarg = a.get(1).and_then(|x| x.as_i64()).unwrap_or(0);
         sim.sys_in_call = 0;
         sim.unfolded = 0;
-        sim.log(json!({"e":"api","op":name,"d":tpair(arg),"n":arg as i64,"now":tpair(sim.now)}));
+        sim.log(json!({"e":"api","op":name,"d":tpair(arg),"n":if name == "send_signal" { sarg } else { arg as i64 },"now":tpair(sim.now)}));
         let res = catch_unwind(AssertUnwindSafe(|| {
             let p = popen.as_mut().unwrap();
             match name {
@@ -98,7 +99,7 @@ fn run_one(v: &Value, out: &mut Vec<String>) {
                     Ok(()) => json!({"k":"ok","v":0}),
                     Err(e) => err_json(&e, e.raw_os_error()),
                 },
-                "send_signal" => match p.send_signal(arg as i32) {
+                "send_signal" => match p.send_signal(sarg as i32) {
                     Ok(()) => json!({"k":"ok","v":0}),
                     Err(e) => err_json(&e, e.raw_os_error()),
                 },
